@@ -189,6 +189,20 @@ Theorem C03_moving_splice_accounting :
             (D ++ drops (s_evs r)) ++ L ++ leak_of c st nx (OSplice Erased v sb eb pat f rk n wa cl)).
 Proof. exact splice_mv_own. Qed.
 
+(** a splice refused by the type check: every element and replacement value is visible, destroyed once, or leaked - never two of these *)
+Theorem C03_wrong_splice_accounting :
+  forall c : cfg,
+         c_dg c = true ->
+         forall (st : astate) (nx : N) (v : nat) (sb eb : bound) (pat : list (bool * sink)) 
+           (f : fin) (rk : rkind) (n j cl : N) (r : sres) (D L : list N),
+         1 <= nx ->
+         sp_splice_wrong c st nx v sb eb pat f rk n j cl = Some r ->
+         Permutation (created c nx) (vis st ++ D ++ L) ->
+         Permutation (created c (s_nx r))
+           (vis (s_st r) ++
+            (D ++ drops (s_evs r)) ++ L ++ leak_of c st nx (OSplice Erased v sb eb pat f rk n (Some j) cl)).
+Proof. exact splice_wrong_own. Qed.
+
 (* ---- end histories ---- *)
 Print Assumptions C03_step.
 Print Assumptions C03_no_double_drop.
@@ -212,3 +226,4 @@ Print Assumptions C03_history_events_are_the_specs.
 Print Assumptions C03_moving_drain_accounting.
 Print Assumptions C03_moving_walk_accounting.
 Print Assumptions C03_moving_splice_accounting.
+Print Assumptions C03_wrong_splice_accounting.
